@@ -382,16 +382,8 @@ func (q query) window(rows []ansRow) []ansRow {
 	return rows
 }
 
-// oracle: the canonical reference answer (rows of a cut timestamp printed as t:~, the filled
-// cells of a statement of the fill-previous-multi shape as ?).
+// oracle: the canonical reference answer (rows of a cut timestamp printed as t:~).
 func oracle(q query, d *dataset) answer {
-	if q.maskedFill() {
-		return applyMask(oracleRaw(q, d), fillMask(q, d))
-	}
-	return oracleRaw(q, d)
-}
-
-func oracleRaw(q query, d *dataset) answer {
 	var a answer
 	for _, g := range fullGroups(q, d) {
 		cut := q.cutTimes(g.rows)
@@ -418,9 +410,6 @@ func oracleRaw(q query, d *dataset) answer {
 func canonImpl(q query, d *dataset, a answer) (out answer, tiesMoved bool) {
 	if a.err != "" {
 		return a, false
-	}
-	if q.maskedFill() {
-		return applyMask(a, fillMask(q, d)), false
 	}
 	if q.agg {
 		if q.interval != 0 || len(q.calls) != 1 || (q.calls[0].f != "min" && q.calls[0].f != "max") {
@@ -728,56 +717,3 @@ func (q query) loneExtremeTie(rows []*drow) bool {
 	return n > 1
 }
 
-// maskedFill: fill(previous) with several calls or a group-by tag - the executor's
-// previous-value bookkeeping is a known finding (class fill-previous-multi); the cells that hold
-// a filled value are printed as ? on both sides, everything else is compared exactly.
-func (q query) maskedFill() bool {
-	return q.agg && q.interval > 0 && q.fill == "previous" && (len(q.calls) > 1 || q.grp != "-")
-}
-
-const fillSentinel = "-1099511627776"
-
-// fillMask evaluates the statement with fill(<sentinel>): mask[group][row][col] = the cell is a
-// filled one.
-func fillMask(q query, d *dataset) map[string][][]bool {
-	qm := q
-	qm.fill = fillSentinel
-	out := map[string][][]bool{}
-	sent := map[string]bool{}
-	for _, cl := range q.calls {
-		sent[fillNumber(cl, -1099511627776)] = true
-	}
-	for _, g := range fullGroups(qm, d) {
-		rows := qm.window(g.rows)
-		m := make([][]bool, len(rows))
-		for i, r := range rows {
-			m[i] = make([]bool, len(r.vals))
-			for j, v := range r.vals {
-				m[i][j] = sent[v]
-			}
-		}
-		out[g.tag] = m
-	}
-	return out
-}
-
-func applyMask(a answer, mask map[string][][]bool) answer {
-	out := answer{flags: a.flags, err: a.err}
-	for _, g := range a.groups {
-		m := mask[g.tag]
-		ng := ansGroup{tag: g.tag}
-		for i, r := range g.rows {
-			nr := ansRow{t: r.t, vals: append([]string(nil), r.vals...)}
-			if i < len(m) {
-				for j := range nr.vals {
-					if j < len(m[i]) && m[i][j] {
-						nr.vals[j] = "?"
-					}
-				}
-			}
-			ng.rows = append(ng.rows, nr)
-		}
-		out.groups = append(out.groups, ng)
-	}
-	return out
-}
